@@ -61,6 +61,7 @@ func runC16(c *Ctx) {
 func c16Structure(c *Ctx) {
 	w := c.w
 	c16FieldSources(c)
+	c16FreshTargets(c)
 	// ---- R3 ----
 	if pc := w.Func(attestPkg, "ParseCertificate"); pc != nil {
 		f := w.Facts(pc)
